@@ -149,7 +149,7 @@ var c07pNearCap = sim.RegStat("probe:c07-frame-ends-within-20-bytes-of-a-buffer-
 
 func runC07(c *Ctx) {
 	w := c.W
-	max := w.Pick(1000, 125, 126, 65535, 65536, 100000)
+	max := w.Pick(1000, 125, 126, 65535, 65536, 100000, 0, 1, 64, 100, 124)
 	// a conforming stream...
 	var stream []byte
 	nFrames := w.Range(1, c.Deep(8))
